@@ -145,6 +145,10 @@ FIELDS = OrderedDict([
     ('nn', dict(type=lambda: Integer(nullable=False), ok=lambda v: v != NIL, base='7', probe=[ABSENT, NIL])),
     ('ny', dict(type=lambda: Integer(min_occurs=1, nullable=True), ok=lambda v: v != ABSENT, base='7', probe=[ABSENT, NIL])),
     ('d', dict(type=lambda: Integer, ok=lambda v: not isinstance(v, list), base='3', probe=[['1', '2'], ABSENT, NIL])),
+    ('nd', dict(type=lambda: Integer(default=7), ok=lambda v: True, base='3', probe=[ABSENT, NIL])),
+    ('ndn', dict(type=lambda: Integer(default=7, nullable=False), ok=lambda v: v != NIL, base='3', probe=[ABSENT, NIL])),
+    ('sd', dict(type=lambda: Unicode(default='dflt', max_len=4), ok=lambda v: v in (ABSENT, NIL) or len(v) <= 4, base='abc',
+                probe=[ABSENT, NIL, 'abcd', 'abcde'])),
     ('ar', dict(type=lambda: Array(Integer(ge=0, le=9)), ok=lambda v: all(0 <= int(x) <= 9 for x in v), base=['1', '2'],
                 probe=[[], ['0', '9'], ['10'], ['1', '-1']], array=True)),
     ('pt3', dict(type=lambda: Pt3, raw=True, ok=lambda v: v in PT3_OK, base='ok_min',
@@ -761,10 +765,12 @@ def members_occurrence(c):
     from spyne.interface.xml_schema.model import complex_add
     Holder, F, mn, mx, plant = c01._holder(c)
     nillable = c.choose([True, False], 'nillable')
+    default = c.choose([None, 5], 'default')
     app = Application([type(ServiceBase)('S', (ServiceBase,), {'m': rpc(Holder, _returns=Holder)(lambda ctx, h: h)})], TNS,
                       in_protocol=XmlDocument(), out_protocol=XmlDocument())
     F.Attributes.nillable = nillable
     F.Attributes.nullable = nillable
+    F.Attributes.default = default
     plant()
     doc = XmlSchema(app.interface)
     tags = set()
@@ -793,6 +799,7 @@ def members_occurrence(c):
         c.check('max_occurs_is_declared_value', _lexical_is(c, xo, mx), detail=repr(xo))
         c.check('max_occurs_written_unless_one', Not(mx == 1) if not c.concrete else mx != 1, detail=repr(xo))
     c.check('nillable_as_declared', (e.get('nillable') == 'true') == nillable, detail=e.get('nillable'))
+    c.check('default_as_declared', e.get('default') == (None if default is None else '5'), detail=e.get('default'))
 
 
 @obligation('C06.members.unbounded', targets=['spyne.interface.xml_schema.model:complex_add'],
@@ -888,3 +895,90 @@ def lexical_verdicts(c):
     c.known_region('C06-soft-lexical-leniency', (tname, lit) in LENIENT)
     c.check('lxml_and_soft_agree_on_lexical_form', verdict['lxml'][0] == verdict['soft'][0],
             detail=dict(type=tname, literal=lit, lxml=verdict['lxml'], soft=verdict['soft']))
+
+
+# ---------------------------------------------------------------------------------------------------------
+# polymorphic output: subclass instances where an ancestor is declared
+class Shape(ComplexModel):
+    __namespace__ = TNS
+    name = Unicode
+
+
+class Polygon(Shape):
+    __namespace__ = TNS
+    sides = Integer(ge=3)
+
+
+class Square(Polygon):
+    __namespace__ = TNS
+    edge = Decimal
+
+
+class Cube(Square):
+    __namespace__ = TNS
+    height = Decimal
+
+
+class FarSquare(Polygon):
+    """a subclass declared in another namespace than its base: Interface.add_class deliberately does not publish it
+    ("would cause circular imports"), the polymorphic serializer marks it all the same -- open known finding"""
+    __namespace__ = 'verif.c06.other'
+    corner = Integer
+
+
+def _mk_polymorphic(family):
+    @obligation('C06.emitted_valid_polymorphic.%s' % family, targets=['spyne.interface._base:Interface.add_class',
+                                                                    'spyne.protocol.xml:XmlDocument.gen_members_parent',
+                                                                    'spyne.interface.xml_schema.model:complex_add'],
+                bounded="a 4-level hierarchy (plus one subclass in a foreign namespace), only the root named in the signatures; instances of every "
+                        "level returned alone, in an array and as a member",
+                desc="with polymorphic output, a response that carries an instance of any (transitive) subclass of the "
+                     "declared class -- marked with xsi:type -- is valid against the generated schema: every class of the "
+                     "hierarchy is published, with its ancestors' fields first")
+    def ob(c):
+        P = {'xml': XmlDocument, 'soap11': Soap11, 'soap12': Soap12}[family]
+
+        class Holder(ComplexModel):
+            __namespace__ = TNS
+            first = Shape
+            rest = Array(Shape)
+        insts = {'shape': Shape(name='s'), 'polygon': Polygon(name='p', sides=5), 'square': Square(name='q', sides=4, edge=D('1.5')),
+                 'cube': Cube(name='c', sides=4, edge=D('2'), height=D('2.0')),
+                 'far_square': FarSquare(name='f', sides=4, corner=1)}
+        which = c.choose(sorted(insts), 'instance')
+        c.known_region('C06-polymorphic-foreign-namespace-subclass', which == 'far_square')
+        shape = c.choose(['alone', 'array', 'member'], 'position')
+
+        class PSvc(ServiceBase):
+            @rpc(_returns=Shape)
+            def alone(ctx):
+                return insts[which]
+
+            @rpc(_returns=Array(Shape))
+            def array(ctx):
+                return [insts[which], insts['shape'], insts[which]]
+
+            @rpc(_returns=Holder)
+            def member(ctx):
+                return Holder(first=insts[which], rest=[insts['cube'], insts[which]])
+        app = Application([PSvc], TNS, name='PApp', in_protocol=P(), out_protocol=P(polymorphic=True))
+        schema = build_schema(app)
+        body = '<tns:%s xmlns:tns="%s"/>' % (shape, TNS)
+        data = body.encode() if family == 'xml' else soap_env(SOAP11_NS if family == 'soap11' else SOAP12_NS, body)
+        out, seen, resp = _post(c, WsgiApplication(app), data)
+        c.check('callable_returns', out.returned, detail=repr(out))
+        if not out.returned:
+            return
+        c.check('status_200', bool(seen) and seen[0].startswith('200'), detail=(seen, resp[:300]))
+        if not (seen and seen[0].startswith('200')):
+            return
+        headers, payload = _payloads(family, resp)
+        ok, errs = _validate(schema, payload)
+        c.check('response_valid_against_generated_schema', ok, detail=(errs, etree.tostring(payload)[:700]))
+        if which != 'shape':
+            c.check('runtime_class_marked', b'type=' in etree.tostring(payload), detail=etree.tostring(payload)[:300])
+    return ob
+
+
+for _f in ('xml', 'soap11', 'soap12'):
+    _mk_polymorphic(_f)
